@@ -9,12 +9,15 @@
 (*   cancel(t) / release(t)   driver actions                               *)
 (*   ret(t, code, op)         the client call returned                     *)
 (*   end(t)                   quiescent point after the event              *)
+(*   stuck                    the scenario made no progress in real time   *)
+(*                            (watchdog of the driver); the bubble was     *)
+(*                            abandoned                                    *)
 (* Level A only; instants are exact virtual nanoseconds.                   *)
 (***************************************************************************)
 EXTENDS RpcLifecycle, TraceIO
 VARIABLES l
 vars == <<rvars, l>>
-Init == /\ point = "recv" /\ kind = "unary" /\ delay = "none" /\ hasDl = FALSE /\ dl = 0 /\ hasCancel = TRUE /\ cancelAt = 1
+Init == /\ point = "recv" /\ kind = "unary" /\ delay = "none" /\ hasDl = FALSE /\ dl = 0 /\ hasCancel = TRUE /\ cancelAt = 1 /\ tracing = FALSE
         /\ now = 0 /\ phase = "resolver" /\ hdrAt = 0 /\ ret = 0 /\ retAt = 0
         /\ sent = FALSE /\ sentAt = 0 /\ hasWire = FALSE /\ wire = 0
         /\ hStarted = FALSE /\ hDone = FALSE /\ hDoneAt = 0
@@ -25,7 +28,7 @@ Lvl1 == UNCHANGED <<now, phase, hdrAt>>
 Step ==
   CASE Ev.ev = "reset" ->
          /\ point' = Ev.point /\ kind' = Ev.kind /\ delay' = Ev.delay /\ hasDl' = Ev.hasDl /\ dl' = Ev.dl
-         /\ hasCancel' = Ev.hasCancel /\ cancelAt' = Ev.cancelAt
+         /\ hasCancel' = Ev.hasCancel /\ cancelAt' = Ev.cancelAt /\ tracing' = Ev.tracing
          /\ ret' = 0 /\ retAt' = 0 /\ sent' = FALSE /\ sentAt' = 0 /\ hasWire' = FALSE /\ wire' = 0
          /\ hStarted' = FALSE /\ hDone' = FALSE /\ hDoneAt' = 0 /\ Lvl1
     [] Ev.ev = "srv" ->
@@ -49,6 +52,11 @@ Step ==
     [] Ev.ev = "end" ->
          /\ Mark(ret = 0, "I_Terminates_NotReturned", l)
          /\ Mark(hStarted /\ ~hDone, "I_ServerCancel", l)
+         /\ UNCHANGED <<scen, ret, retAt, sent, sentAt, hasWire, wire, hStarted, hDone, hDoneAt>> /\ Lvl1
+    [] Ev.ev = "stuck" ->
+         /\ Mark(ret = 0, "I_Terminates_NotReturned", l)
+         /\ Mark(ret # 0 /\ hStarted /\ ~hDone, "I_ServerCancel", l)
+         /\ Drift(ret # 0 /\ ~(hStarted /\ ~hDone), "D_stuck_after_return", l)
          /\ UNCHANGED <<scen, ret, retAt, sent, sentAt, hasWire, wire, hStarted, hDone, hDoneAt>> /\ Lvl1
     [] Ev.ev = "panic" ->
          /\ Mark(TRUE, "I_NoPanic", l)
